@@ -268,7 +268,7 @@ theorem c13b_lastPt_eq_getLast (q : Point K) (pts : List (Point K)) :
   | cons r pts ih => rw [c13b_lastPt, ih, List.getLast_cons_cons]
 
 theorem c13b_wholeN_ne (start p : Point K) (pts : List (Point K)) (h : c13b_lastPt p pts ≠ start) :
-    c13b_wholeN start p pts = (p :: pts).map .LineTo ++ [.ClosePath, .LineTo start] := by
+    c13b_wholeN start p pts = (p :: pts).map .LineTo ++ [.LineTo start, .ClosePath] := by
   induction pts generalizing p with
   | nil =>
     have h' : p ≠ start := h
@@ -280,15 +280,15 @@ theorem c13b_wholeN_ne (start p : Point K) (pts : List (Point K)) (h : c13b_last
     rfl
 
 theorem c13b_wholeN_eq (start p : Point K) (pts : List (Point K)) (h : c13b_lastPt p pts = start) :
-    c13b_wholeN start p pts = (p :: pts).dropLast.map .LineTo ++ [.ClosePath, .LineTo start] := by
+    c13b_wholeN start p pts = (p :: pts).map .LineTo ++ [.ClosePath] := by
   induction pts generalizing p with
   | nil =>
     have h' : p = start := h
     simp only [c13b_wholeN]
-    rw [if_pos ((c13b_peq_iff _ _).mpr h'), h']
+    rw [if_pos ((c13b_peq_iff _ _).mpr h')]
     rfl
   | cons r pts ih =>
-    rw [c13b_wholeN, ih r h, List.dropLast_cons_of_ne_nil (List.cons_ne_nil r pts)]
+    rw [c13b_wholeN, ih r h]
     rfl
 end
 
